@@ -97,13 +97,10 @@ async fn main_loop() {
                     }
                     std::thread::sleep(std::time::Duration::from_secs(5));
                 }
-                // clean: leave the loop, let the runtime shut down, but the gc
-                // thread may be parked in the gate: let it run free first
-                {
-                    let mut st = gate.st.lock().unwrap();
-                    st.free = true;
-                    gate.cv.notify_all();
-                }
+                // clean: normal process exit. Pending gc tasks stay unprocessed (the gc
+                // thread is parked in the gate), exactly like a queue lost at shutdown.
+                std::process::exit(0);
+                #[allow(unreachable_code)]
                 return;
             }
             _ => {
